@@ -307,6 +307,32 @@ def compute_tables(inst, par, shares_by_geo, real_order=None):
                               bool(d.corr_test), sc)
           except Exception:
             t.table_exceptions += 1
+  # Strict reading of C03: a geo that is too large (or alone over budget) to be a treatment geo is removed from the
+  # search altogether, although as a *control* geo it is legal.  Designs that use such geos in the control group are
+  # tabulated separately (small instances without n_geos_max only); see judge_c03 / known finding F-C03-admission.
+  t.ext, t.pair_ext = [], {}
+  extra = [i for i, c in enumerate(t.cls7) if i not in cand and c in ('ctx', 'cx')]
+  if par.n_geos_max is None and extra and n + len(extra) <= 6 and not t.table_exceptions:
+    t.ext = extra
+    rows_ext = np.vstack([sub, arr[extra]]) if n else arr[extra]
+    ext_pos = list(range(n, n + len(extra)))
+    for r in range(1, len(canT) + 1):
+      for T in itertools.combinations(canT, r):
+        y = sub[list(T)].sum(axis=0)
+        restC = [i for i in canC if i not in T] + ext_pos
+        for rc in range(1, len(restC) + 1):
+          for C in itertools.combinations(restC, rc):
+            if not any(c >= n for c in C):
+              continue
+            try:
+              d = D(y, par)
+              d.x = rows_ext[list(C)].sum(axis=0)
+              imp = d.required_impact
+              sc = S(d).score
+              binv = (1 / (imp / hi)) if hi is not None else float('nan')
+              t.pair_ext[(T, C)] = (float(imp), [float(v) for v in sc[:5]], float(sc[5]), float(binv), bool(d.corr_test), sc)
+            except Exception:
+              pass
   return t
 
 
@@ -365,6 +391,7 @@ def run_real(inst, resolved, which):
     par = build_params(inst, resolved)
     data = tbrmmdata.TBRMMData(build_frame(inst), 'response', build_elig(inst))
     mm = tbrmatchedmarkets.TBRMatchedMarkets(data, par)
+    data = mm.data
     out['geo_share'] = {str(k): float(v) for k, v in data.geo_share.items()}
     out['df_order'] = [str(g) for g in data.df.index]
     global _ORIG_PUSH
@@ -580,7 +607,8 @@ def process(job):
     rec['tables'] = {'order': t.order, 'cls7': t.cls7, 'share': t.share, 'req': t.req, 'idx': t.idx,
                      'cls': t.cls, 'n': t.n, 'n_window': t.n_window, 'opt': t.opt, 'pair': t.pair,
                      'arr': t.arr, 'distinct_means': t.distinct_means, 'req_distinct': t.req_distinct,
-                     'table_exceptions': t.table_exceptions, 'canT': t.canT, 'canC': t.canC}
+                     'table_exceptions': t.table_exceptions, 'canT': t.canT, 'canC': t.canC,
+                     'ext': t.ext, 'pair_ext': t.pair_ext}
     rec['margin'] = min_margin(resolved, t)
     rec['wire'] = wire_instance(iid, resolved, t) if t.n <= 8 else None
   except Exception as e:
@@ -778,7 +806,7 @@ def raw_shares(r):
   return {g: (m / tot if tot else float('nan')) for g, m in means.items()}
 
 
-def constraint_report(r, T, C, t, which):
+def constraint_report(r, T, C, t, which, ids=None, rec=None):
   """(violations under reading A, under reading B) of the six constraints for index sets T, C
   (indices into the admitted list).  Tolerant at 1e-9 relative."""
   p = r['resolved']
@@ -798,7 +826,8 @@ def constraint_report(r, T, C, t, which):
       if outside(float(ratio), float(1 / (1 + tol)), float(1 + tol)):
         bad_common.append(f'geo ratio {len(C)}/{len(T)} outside tolerance {p["geo_ratio_tolerance"]}')
   sh = raw_shares(r)
-  ids = [t['order'][i] for i in t['idx']]
+  admitted_ids = [t['order'][i] for i in t['idx']]
+  ids = ids if ids is not None else admitted_ids
   sT = sum(sh[ids[i]] for i in T)
   sC = sum(sh[ids[i]] for i in C)
   if p.get('volume_ratio_tolerance') is not None and sT:
@@ -809,11 +838,11 @@ def constraint_report(r, T, C, t, which):
     lo, hi = p['treatment_share_range']
     if outside(sT, lo, hi):
       badA.append(f'treatment share {sT} (vs all geos) outside {[lo, hi]}')
-    sAll = sum(sh[g] for g in ids)
+    sAll = sum(sh[g] for g in admitted_ids)
     if sAll and outside(sT / sAll, lo, hi):
       badB.append(f'treatment share {sT / sAll} (vs admitted geos) outside {[lo, hi]}')
   if p.get('budget_range') is not None:
-    rec = t['pair'].get((tuple(T), tuple(C)))
+    rec = rec if rec is not None else t['pair'].get((tuple(T), tuple(C)))
     if rec is not None and math.isfinite(rec[0]):
       lo, hi = p['budget_range']
       b = rec[0] / p['iroas'] if p['iroas'] != 0 else (math.inf if rec[0] > 0 else (-math.inf if rec[0] < 0 else math.nan))
@@ -1040,6 +1069,30 @@ def judge_c03(out, res):
         out.oracle_violation(f, case_of(r, 'exh'),
                              f'feasible design T={list(T)} C={list(C)} scores {s}, strictly above the worst returned {worst}')
         break
+    # strict reading: designs whose control group uses a geo the search never admits (too large / alone over budget)
+    if t.get('pair_ext'):
+      n = t['n']
+      ids_ext = [t['order'][i] for i in t['idx']] + [t['order'][i] for i in t['ext']]
+      must = {i for i in range(n) if t['cls'][i] in MUST}
+      tfix = {i for i in range(n) if t['cls'][i] == 'tFixed'}
+      cfix = {i for i in range(n) if t['cls'][i] == 'cFixed'}
+      out.extra['strict_reading_designs'] = out.extra.get('strict_reading_designs', 0) + len(t['pair_ext'])
+      for (T, C), rec in t['pair_ext'].items():
+        if not tfix <= set(T) or not cfix <= set(C) or not must <= set(T) | set(C) or omittable(T):
+          continue
+        sc = tuple(rec[1]) + ((rec[3] if budget is not None else rec[2]),)
+        if has_nan(sc):
+          continue
+        common, a, b = constraint_report(r, list(T), list(C), t, 'exh', ids=ids_ext, rec=rec)
+        if common or a or b:
+          continue
+        better = worst is not None and lt_score(worst, sc) and not all(math.isclose(x, y, rel_tol=1e-9, abs_tol=1e-12) for x, y in zip(worst, sc))
+        if len(res_set) < k or better:
+          f2 = dict(f, symptom='better-design-omitted' if len(res_set) >= k else 'feasible-design-missing', uses_nonadmitted_geo=True)
+          out.oracle_violation(f2, case_of(r, 'exh'),
+                               f'design T={[ids_ext[i] for i in T]} C={[ids_ext[i] for i in C]} (score {sc}) is legal and within every constraint, '
+                               f'but geo(s) {[ids_ext[i] for i in C if i >= n]} are not admitted to the search; returned: {len(res_set)} of n_designs={k}, worst {worst}')
+          break
     out.count(nontrivial_key(r) if len(feas) > 1 else None)
     out.extra['feasible_total'] = out.extra.get('feasible_total', 0) + len(feas)
 
